@@ -391,7 +391,40 @@ func (r *runner) runBlock(steps []Step) {
 		before[ci] = r.m.conn(ci).Session
 	}
 	r.w.sim.BeginBlock()
+	// Updates that wait for the next frame are sent first; the other members of the block are
+	// then timed to arrive at the very instant of a frame tick (when the network has no jitter),
+	// so that their handling overlaps the flush of those updates.
+	hasDeferred, hasOther := false, false
 	for _, q := range reqs {
+		if isDeferredOp(q.st.Op) {
+			hasDeferred = true
+		} else {
+			hasOther = true
+		}
+	}
+	align := hasDeferred && hasOther && r.w.cfg.Net.Jitter == 0 && r.w.netr.Bool(0.7)
+	if align {
+		sort.SliceStable(reqs, func(i, j int) bool { return isDeferredOp(reqs[i].st.Op) && !isDeferredOp(reqs[j].st.Op) })
+	}
+	aligned := false
+	for _, q := range reqs {
+		if align && !aligned && !isDeferredOp(q.st.Op) {
+			aligned = true
+			lat := r.w.cfg.Net.MinLat
+			now := r.w.sim.Now()
+			var cands []time.Duration
+			for _, at := range r.w.sim.EventTimes("ticker") {
+				if at > now+lat && at <= now+lat+2*r.w.cfg.FrameDuration+time.Millisecond {
+					cands = append(cands, at)
+				}
+			}
+			if len(cands) > 0 {
+				at := cands[r.w.netr.Intn(len(cands))]
+				r.w.sim.RunUntil(at - lat)
+				r.res.Triggers["block_aligned_to_tick"]++
+				r.w.sim.Stats["probe.arrival_at_frame_tick"]++
+			}
+		}
 		r.res.Executed++
 		if q.st.Op == "close" || q.st.Op == "rst" {
 			q.closes = true
